@@ -149,5 +149,7 @@ pub fn parse_idl_args(s: &str) -> crate::Result<candid::IDLArgs> {
 
 pub fn parse_idl_value(s: &str) -> crate::Result<candid::IDLValue> {
     let lexer = token::Tokenizer::new(s);
-    Ok(grammar::ArgParser::new().parse(None, lexer)?)
+    // a single value may carry a type annotation at its root (`42 : nat8`), which is how
+    // `IDLValue`'s Display prints typed numbers
+    Ok(grammar::AnnValParser::new().parse(None, lexer)?)
 }
